@@ -10,6 +10,7 @@ import (
 	"errors"
 	"fmt"
 	"io"
+	"sync"
 	"testing"
 	"time"
 
@@ -228,6 +229,30 @@ type c19RetryCase struct {
 
 var errC19Write = errors.New("verif: injected transport write failure")
 
+// c19ManualCtx is a context whose deadline "passes" when the harness says so.
+type c19ManualCtx struct {
+	mu   sync.Mutex
+	done chan struct{}
+	err  error
+}
+
+func (c *c19ManualCtx) Deadline() (time.Time, bool)       { return time.Time{}, false }
+func (c *c19ManualCtx) Done() <-chan struct{}             { return c.done }
+func (c *c19ManualCtx) Value(key interface{}) interface{} { return nil }
+func (c *c19ManualCtx) Err() error {
+	c.mu.Lock()
+	defer c.mu.Unlock()
+	return c.err
+}
+func (c *c19ManualCtx) expire() {
+	c.mu.Lock()
+	defer c.mu.Unlock()
+	if c.err == nil {
+		c.err = context.DeadlineExceeded
+		close(c.done)
+	}
+}
+
 func c19IsReqType(t int) bool {
 	return t == rtPublish || t == rtPubRel || t == rtSubscribe || t == rtUnsubscribe
 }
@@ -236,8 +261,34 @@ func c19IsReqType(t int) bool {
 // error, the packets the client emitted and whether the interruption fired.
 func c19Attempt(tb rapid.TB, c c19RetryCase, f *c19Fail, do func(ctx context.Context, cli *BaseClient) error) (error, []refPacket, []refPacket, *baseRig, bool) {
 	r := newBaseRig()
-	ctx, cancel := context.WithCancel(context.Background())
-	defer cancel()
+	var ctx context.Context
+	var cancel func()
+	cause := ""
+	if f != nil {
+		cause = f.Cause
+	}
+	switch cause {
+	case "cancelCauseEOF", "cancelCauseApp":
+		// a context cancelled with an explicit cause: its Err() is still context.Canceled
+		cctx, cc := context.WithCancelCause(context.Background())
+		ctx = cctx
+		cancel = func() {
+			if cause == "cancelCauseEOF" {
+				cc(io.EOF)
+			} else {
+				cc(errors.New("verif: the application gave up"))
+			}
+		}
+		defer cc(nil)
+	case "deadline":
+		// a context whose deadline passes exactly at the interruption point (a Context of our own: the moment is ours)
+		mc := &c19ManualCtx{done: make(chan struct{})}
+		ctx, cancel = mc, mc.expire
+	default:
+		cctx, cc := context.WithCancel(context.Background())
+		ctx, cancel = cctx, cc
+		defer cc()
+	}
 	fired := false // guarded by r.peer.mu
 	if f != nil {
 		nW, nP := 0, 0
@@ -412,8 +463,10 @@ func c19RetryRunProp(tb rapid.TB, c c19RetryCase, prop string) {
 			want = errC19Write
 		case "closed":
 			want = ErrClosedTransport
-		case "cancel":
+		case "cancel", "cancelCauseEOF", "cancelCauseApp":
 			want = context.Canceled
+		case "deadline":
+			want = context.DeadlineExceeded
 		}
 		if !errors.Is(err, want) {
 			fail("attempt %d: interrupted by %+v, errors.Is(err, %v) is false; err = %v", attempt, *f, want, err)
@@ -445,7 +498,7 @@ func c19GenFail(rt *rapid.T, kind string) c19Fail {
 	if kind == "pub2" {
 		f.Pkt = rapid.IntRange(0, 1).Draw(rt, "pkt")
 	}
-	f.Cause = rapid.SampledFrom([]string{"writeerr", "closed", "cancel"}).Draw(rt, "cause")
+	f.Cause = rapid.SampledFrom([]string{"writeerr", "closed", "cancel", "cancel", "cancelCauseEOF", "cancelCauseApp", "deadline"}).Draw(rt, "cause")
 	f.Write = f.Cause == "writeerr"
 	return f
 }
@@ -495,4 +548,112 @@ func TestVerifC12_RetryHandle(t *testing.T) {
 		c.StaleDup = rapid.IntRange(0, 2).Draw(rt, "staleDup") == 0
 		return c
 	}, func(tb rapid.TB, c c19RetryCase) { c19RetryRunProp(tb, c, "C12") })
+}
+
+// ---------------------------------------------------------------------------
+// part 4: the error of ReconnectClient.Connect when the caller's context ends before the first connection
+
+type c19ConnCase struct {
+	Attempts []c09Attempt `json:"attempts"` // failing attempts (dialErr with flavour, refuse with code) before the context ends
+	Cause    string       `json:"cause"`    // cancel | cancelCauseEOF | cancelCauseApp | deadline
+}
+
+func TestVerifC19_ConnectCancel(t *testing.T) {
+	vRun(t, "C19", vOpts{CurFile: true}, func(rt *rapid.T) c19ConnCase {
+		c := c19ConnCase{Cause: rapid.SampledFrom([]string{"cancel", "cancelCauseEOF", "cancelCauseApp", "deadline"}).Draw(rt, "cause")}
+		c.Attempts = rapid.SliceOfN(rapid.Custom(func(rt *rapid.T) c09Attempt {
+			if rapid.Bool().Draw(rt, "refuse") {
+				return c09Attempt{Outcome: "refuse", Code: rapid.IntRange(1, 5).Draw(rt, "code")}
+			}
+			return c09Attempt{Outcome: "dialErr", Code: rapid.IntRange(0, 2).Draw(rt, "dialErrKind")}
+		}), 0, 4).Draw(rt, "attempts")
+		return c
+	}, func(tb rapid.TB, c c19ConnCase) {
+		log := &vLog{}
+		var plan []e4Fault
+		for i, a := range c.Attempts {
+			plan = append(plan, e4Fault{Kind: a.Outcome, Conn: i + 1, Code: a.Code})
+		}
+		b := newVBroker(log, true, false, plan)
+		d := &vdialer{b: b}
+		d.holdFrom, d.holdGate = len(c.Attempts)+1, make(chan struct{}) // the attempt after the scripted ones never gets a transport
+		cliI, err := NewReconnectClient(d, WithReconnectWait(200*time.Microsecond, time.Millisecond), WithTimeout(2*time.Second))
+		if err != nil {
+			tb.Fatalf("harness: %v", err)
+		}
+		var ctx context.Context
+		var end func()
+		want := context.Canceled
+		switch c.Cause {
+		case "cancelCauseEOF", "cancelCauseApp":
+			cctx, cc := context.WithCancelCause(context.Background())
+			ctx = cctx
+			end = func() {
+				if c.Cause == "cancelCauseEOF" {
+					cc(io.EOF)
+				} else {
+					cc(errors.New("verif: the application gave up"))
+				}
+			}
+			defer cc(nil)
+		case "deadline":
+			mc := &c19ManualCtx{done: make(chan struct{})}
+			ctx, end, want = mc, mc.expire, context.DeadlineExceeded
+		default:
+			cctx, cc := context.WithCancel(context.Background())
+			ctx, end = cctx, cc
+			defer cc()
+		}
+		ret := make(chan error, 1)
+		go func() {
+			_, err := cliI.Connect(ctx, "verif-c19")
+			ret <- err
+		}()
+		fail := func(format string, args ...interface{}) {
+			end()
+			d.release()
+			vFailf(tb, map[string]interface{}{"trace": log.strings(80)}, format, args...)
+		}
+		if !vWaitUntil(20*time.Second, func() bool { return d.dialCount() >= len(c.Attempts)+1 }) {
+			fail("the reconnect loop made only %d of %d dial attempts\n%s", d.dialCount(), len(c.Attempts)+1, vGoroutineDump())
+		}
+		end()
+		var cerr error
+		select {
+		case cerr = <-ret:
+		case <-time.After(20 * time.Second):
+			fail("Connect did not return after its context ended\n%s", vGoroutineDump())
+		}
+		d.release()
+		refused := 0
+		for _, a := range c.Attempts {
+			if a.Outcome == "refuse" {
+				refused++
+			}
+		}
+		vCount("C19", len(c.Attempts) >= 1, vJSON(c), []string{"connect-cancel:" + c.Cause, fmt.Sprintf("connect-cancel:refused=%d", minInt(refused, 2))}, func() interface{} { return c })
+		if cerr == nil {
+			fail("Connect returned nil although its context ended before any connection was established")
+		}
+		if !errors.Is(cerr, want) {
+			fail("Connect's context ended (%s) after %d failed attempts %v: errors.Is(err, %v) is false; err = %v", c.Cause, len(c.Attempts), c.Attempts, want, cerr)
+		}
+		other := context.DeadlineExceeded
+		if want == context.DeadlineExceeded {
+			other = context.Canceled
+		}
+		// (not demanded when a dial attempt itself failed with a context error: an implementation may keep that in the chain)
+		ctxDial := false
+		for _, a := range c.Attempts {
+			if a.Outcome == "dialErr" && a.Code != 0 {
+				ctxDial = true
+			}
+		}
+		if !ctxDial && errors.Is(cerr, other) {
+			fail("Connect's context ended with %v, but errors.Is(err, %v) is true; err = %v", want, other, cerr)
+		}
+		dctx, dc := context.WithTimeout(context.Background(), 5*time.Second)
+		_ = cliI.Disconnect(dctx)
+		dc()
+	})
 }
